@@ -128,12 +128,30 @@ class _Subst(ast.NodeTransformer):
 
 
 # ---------------------------------------------------------------------------------------------- T2
-def _split_parallel(fn: ast.AST) -> int:
+def _split_parallel(fn: ast.AST, _again: bool = True) -> int:
     k = 0
+    made_if = False
     for body in _bodies(fn):
         i = 0
         while i < len(body):
             s = body[i]
+            if isinstance(s, ast.Assign) and len(s.targets) == 1 and isinstance(s.targets[0], (ast.Tuple, ast.List)) and isinstance(s.value, ast.IfExp) \
+                    and isinstance(s.value.body, (ast.Tuple, ast.List)) and isinstance(s.value.orelse, (ast.Tuple, ast.List)) \
+                    and len(s.value.body.elts) == len(s.targets[0].elts) == len(s.value.orelse.elts):
+                # a, b = (p, q) if c else (r, s)   ->   if c: a, b = p, q  else: a, b = r, s
+                st_ = ast.If(test=s.value.test,
+                             body=[ast.Assign(targets=[copy.deepcopy(s.targets[0])], value=s.value.body)],
+                             orelse=[ast.Assign(targets=[copy.deepcopy(s.targets[0])], value=s.value.orelse)])
+                ast.copy_location(st_, s)
+                for x_ in ast.walk(st_):
+                    if isinstance(x_, ast.stmt):
+                        ast.copy_location(x_, s)
+                ast.fix_missing_locations(st_)
+                body[i] = st_
+                made_if = True
+                k += 1
+                i += 1
+                continue
             if isinstance(s, ast.Assign) and len(s.targets) > 1 and isinstance(s.value, ast.Constant) \
                     and all(isinstance(t, (ast.Name, ast.Attribute)) and _is_pure(t) for t in s.targets):
                 # a = b = <constant>   ->   a = <constant>; b = <constant>
@@ -182,6 +200,8 @@ def _split_parallel(fn: ast.AST) -> int:
                     k += 1
                     continue
             i += 1
+    if made_if and _again:
+        k += _split_parallel(fn, False)
     return k
 
 
@@ -253,6 +273,55 @@ def _unroll(fn: ast.AST) -> int:
                     k += 1
                     continue
             i += 1
+    return k
+
+
+def _literal_tables(fn: ast.AST) -> int:
+    """T3c: a local bound once to a tuple of never-rebound names (`histories = (X, G)`) is that tuple wherever it is read;
+    `zip(<literal tuple>, <literal tuple>, ..)` as a loop iterable is the tuple of the zipped items.  Both feed T3."""
+    k = 0
+    stores = _stores(fn)
+    a = fn.args if isinstance(fn, (ast.FunctionDef, ast.AsyncFunctionDef)) else None
+    params = {p_.arg for p_ in (a.posonlyargs + a.args + a.kwonlyargs)} if a else set()
+    for body in _bodies(fn):
+        for st in list(body):
+            if not (isinstance(st, ast.Assign) and len(st.targets) == 1 and isinstance(st.targets[0], ast.Name) and isinstance(st.value, ast.Tuple)
+                    and st.value.elts and all(isinstance(e, ast.Name) for e in st.value.elts)):
+                continue
+            nm = st.targets[0].id
+            if len(stores.get(nm, [])) != 1 or nm in params:
+                continue
+            if any(len(stores.get(e.id, [])) > (0 if e.id in params else 1) for e in st.value.elts):
+                continue
+            # elements bound (at most once) before the tuple is built: only parameters and names assigned earlier in this block
+            idx = body.index(st)
+            earlier = {n.id for b_ in body[:idx] for n in ast.walk(b_) if isinstance(n, ast.Name) and isinstance(n.ctx, ast.Store)}
+            if not all(e.id in params or e.id in earlier for e in st.value.elts):
+                continue
+            loads = _loads(fn, nm)
+            if not loads or any(isinstance(n, (ast.FunctionDef, ast.Lambda)) and any(x is l_ for x in ast.walk(n) for l_ in loads)
+                                for n in ast.walk(fn) if n is not fn):
+                continue
+            lit = st.value
+
+            class R(ast.NodeTransformer):
+                def visit_Name(self, n):
+                    if n.id == nm and isinstance(n.ctx, ast.Load):
+                        return ast.copy_location(copy.deepcopy(lit), n)
+                    return n
+            for i_, b_ in enumerate(body):
+                if b_ is not st:
+                    body[i_] = R().visit(b_)
+            body.remove(st)
+            k += 1
+    for n in ast.walk(fn):
+        if isinstance(n, ast.For) and isinstance(n.iter, ast.Call) and isinstance(n.iter.func, ast.Name) and n.iter.func.id == "zip" \
+                and len(n.iter.args) >= 2 and not n.iter.keywords and all(isinstance(x, (ast.Tuple, ast.List)) for x in n.iter.args) \
+                and len({len(x.elts) for x in n.iter.args}) == 1 and all(_is_pure(e) and not isinstance(e, ast.Starred) for x in n.iter.args for e in x.elts):
+            rows = [ast.Tuple(elts=[x.elts[j] for x in n.iter.args], ctx=ast.Load()) for j in range(len(n.iter.args[0].elts))]
+            n.iter = ast.copy_location(ast.Tuple(elts=rows, ctx=ast.Load()), n.iter)
+            ast.fix_missing_locations(n)
+            k += 1
     return k
 
 
@@ -1021,8 +1090,13 @@ def _namedtuples(tree: ast.Module) -> Dict[str, dict]:
     """module-level `class X(NamedTuple)`: field order, @property bodies and one-expression methods"""
     out = {}
     for c in tree.body:
-        if isinstance(c, ast.ClassDef) and any((isinstance(b, ast.Name) and b.id == "NamedTuple") or
-                                              (isinstance(b, ast.Attribute) and b.attr == "NamedTuple") for b in c.bases):
+        frozen_dc = isinstance(c, ast.ClassDef) and not c.bases and any(
+            isinstance(d, ast.Call) and (isinstance(d.func, ast.Name) and d.func.id == "dataclass" or isinstance(d.func, ast.Attribute) and d.func.attr == "dataclass")
+            and any(k.arg == "frozen" and isinstance(k.value, ast.Constant) and k.value.value is True for k in d.keywords)
+            and not any(k.arg in ("init", "kw_only") for k in d.keywords) for d in c.decorator_list) and len(c.decorator_list) == 1 \
+            and not any(isinstance(m_, ast.FunctionDef) and m_.name.startswith("__") for m_ in c.body)
+        if isinstance(c, ast.ClassDef) and (frozen_dc or any((isinstance(b, ast.Name) and b.id == "NamedTuple") or
+                                                            (isinstance(b, ast.Attribute) and b.attr == "NamedTuple") for b in c.bases)):
             fields, props, meths, lifted, ok = [], {}, {}, {}, True
             for st in c.body:
                 if isinstance(st, ast.AnnAssign) and isinstance(st.target, ast.Name):
@@ -1726,6 +1800,187 @@ def _known_none(fn: ast.AST, classes: Set[str]) -> int:
     return k
 
 
+# ---------------------------------------------------------------------------------------------- T26 / T27
+def _match_to_if(fn: ast.AST) -> int:
+    """T26: `match S: case <literal | a | b | _ | (p, q)> [if g]: ...` -> if / elif chain (value, singleton, or-, wildcard and
+    fixed-length tuple patterns over a tuple-literal subject; a bare capture only as the last, unguarded case).  Class,
+    mapping and star patterns are left alone (the loader then refuses the construct)"""
+    k = 0
+
+    def test_of(pat, subj) -> Optional[ast.expr]:
+        if isinstance(pat, ast.MatchValue):
+            return ast.Compare(left=copy.deepcopy(subj), ops=[ast.Eq()], comparators=[pat.value])
+        if isinstance(pat, ast.MatchSingleton):
+            return ast.Compare(left=copy.deepcopy(subj), ops=[ast.Is()], comparators=[ast.Constant(pat.value)])
+        if isinstance(pat, ast.MatchOr):
+            ts = [test_of(p_, subj) for p_ in pat.patterns]
+            if any(t is None or (isinstance(t, ast.Constant) and t.value is True) for t in ts):
+                return None
+            return ast.BoolOp(op=ast.Or(), values=ts)
+        if isinstance(pat, ast.MatchAs) and pat.pattern is None and pat.name is None:
+            return ast.Constant(True)
+        if isinstance(pat, ast.MatchSequence) and isinstance(subj, ast.Tuple) and len(pat.patterns) == len(subj.elts) \
+                and not any(isinstance(p_, ast.MatchStar) for p_ in pat.patterns):
+            ts = []
+            for p_, e_ in zip(pat.patterns, subj.elts):
+                t = test_of(p_, e_)
+                if t is None:
+                    return None
+                if not (isinstance(t, ast.Constant) and t.value is True):
+                    ts.append(t)
+            if not ts:
+                return ast.Constant(True)
+            return ts[0] if len(ts) == 1 else ast.BoolOp(op=ast.And(), values=ts)
+        return None
+    for body in _bodies(fn):
+        i = 0
+        while i < len(body):
+            s = body[i]
+            i += 1
+            if not isinstance(s, ast.Match):
+                continue
+            subj = s.subject
+            pre: List[ast.stmt] = []
+            if not _is_pure(subj):
+                nm = f"match__{s.lineno}"
+                pre.append(ast.Assign(targets=[ast.Name(nm, ast.Store())], value=subj))
+                subj = ast.Name(nm, ast.Load())
+            elif isinstance(subj, ast.Tuple) and not all(_is_pure(e) for e in subj.elts):
+                continue
+            chain = []
+            ok = True
+            for j, c in enumerate(s.cases):
+                pat = c.pattern
+                if isinstance(pat, ast.MatchAs) and pat.pattern is None and pat.name is not None:
+                    if j != len(s.cases) - 1 or c.guard is not None:
+                        ok = False
+                        break
+                    bind = ast.Assign(targets=[ast.Name(pat.name, ast.Store())], value=copy.deepcopy(subj))
+                    chain.append((ast.Constant(True), [bind] + c.body))
+                    continue
+                t = test_of(pat, subj)
+                if t is None:
+                    ok = False
+                    break
+                if c.guard is not None:
+                    t = c.guard if isinstance(t, ast.Constant) and t.value is True else ast.BoolOp(op=ast.And(), values=[t, c.guard])
+                chain.append((t, c.body))
+            if not ok or not chain:
+                continue
+            tail: List[ast.stmt] = []
+            for t, b in reversed(chain):
+                if isinstance(t, ast.Constant) and t.value is True:
+                    tail = list(b)
+                else:
+                    tail = [ast.If(test=t, body=list(b), orelse=tail)]
+            new = pre + tail
+            for x in new:
+                ast.copy_location(x, s)
+                ast.fix_missing_locations(x)
+            at = body.index(s)
+            body[at:at + 1] = new
+            i = at
+            k += 1
+    return k
+
+
+def _first_walrus(e: ast.expr) -> Optional[ast.NamedExpr]:
+    """the assignment expression of e that is evaluated unconditionally and before anything with an effect, if any"""
+    class Stop(Exception):
+        pass
+    found: List[ast.NamedExpr] = []
+
+    def has_walrus(x) -> bool:
+        return any(isinstance(y, ast.NamedExpr) for y in ast.walk(x))
+
+    def cond(x):
+        # evaluated only on some outcomes: a walrus in there cannot be hoisted, and nothing after it either
+        if has_walrus(x):
+            raise Stop()
+        if not _is_effect_free(x):
+            raise Stop()
+
+    def go(x):
+        if isinstance(x, ast.NamedExpr):
+            if isinstance(x.target, ast.Name) and not has_walrus(x.value):
+                found.append(x)
+            raise Stop()
+        if isinstance(x, (ast.Name, ast.Constant)):
+            return
+        if isinstance(x, ast.BoolOp):
+            go(x.values[0])
+            for v in x.values[1:]:
+                cond(v)
+            return
+        if isinstance(x, ast.IfExp):
+            go(x.test)
+            cond(x.body)
+            cond(x.orelse)
+            return
+        if isinstance(x, (ast.Lambda, ast.ListComp, ast.SetComp, ast.DictComp, ast.GeneratorExp)):
+            cond(x)
+            return
+        if isinstance(x, ast.Call):
+            go(x.func)
+            for a_ in x.args:
+                go(a_.value if isinstance(a_, ast.Starred) else a_)
+            for k_ in x.keywords:
+                go(k_.value)
+            if not _is_effect_free(ast.Call(func=x.func, args=[], keywords=[])) and not _is_effect_free(x):
+                raise Stop()       # the call itself runs now: nothing later may move in front of it
+            return
+        if isinstance(x, ast.Compare):
+            go(x.left)
+            if len(x.comparators) > 1:
+                for c_ in x.comparators:
+                    cond(c_)       # chained comparisons short-circuit
+            else:
+                go(x.comparators[0])
+            return
+        for ch in ast.iter_child_nodes(x):
+            if isinstance(ch, ast.expr):
+                go(ch)
+    try:
+        go(e)
+    except Stop:
+        pass
+    return found[0] if found else None
+
+
+def _walrus(fn: ast.AST) -> int:
+    """T27: `if (n := E) ...:`, `y = (n := E) ...`, `return (n := E) ...` with the assignment expression evaluated first and
+    unconditionally -> `n = E` in front of the statement"""
+    k = 0
+    for body in _bodies(fn):
+        i = 0
+        while i < len(body):
+            s = body[i]
+            host = s.test if isinstance(s, ast.If) else s.value if isinstance(s, (ast.Assign, ast.AnnAssign, ast.Expr, ast.Return, ast.AugAssign)) else None
+            if host is None or (isinstance(s, ast.Assign) and not all(isinstance(t, ast.Name) for t in s.targets)) or \
+                    (isinstance(s, (ast.AnnAssign, ast.AugAssign)) and not isinstance(s.target, ast.Name)):
+                i += 1
+                continue
+            w = _first_walrus(host)
+            if w is not None:
+                pre = ast.copy_location(ast.Assign(targets=[ast.Name(w.target.id, ast.Store())], value=w.value), s)
+                ast.fix_missing_locations(pre)
+                rep = ast.copy_location(ast.Name(w.target.id, ast.Load()), w)
+
+                class R(ast.NodeTransformer):
+                    def visit_NamedExpr(self, n):
+                        return rep if n is w else self.generic_visit(n)
+                if isinstance(s, ast.If):
+                    s.test = R().visit(s.test)
+                else:
+                    s.value = R().visit(s.value)
+                body.insert(i, pre)
+                k += 1
+                i += 1          # look at the same statement again (another walrus may now be leftmost)
+                continue
+            i += 1
+    return k
+
+
 def _delegating_generators(tree: ast.Module) -> int:
     """T21: a module-level generator whose whole body is `yield from E` hands out exactly the items of E; when every
     call of it is the iterable of a `for` statement or of a comprehension (consumed at once, on the spot), the call
@@ -1759,9 +2014,13 @@ def _delegating_generators(tree: ast.Module) -> int:
 def normalise(tree: ast.Module, modname: str = "") -> Dict[str, int]:
     stats = {"T1 splat": 0, "T2 parallel": 0, "T3 unroll": 0, "T4 tests": 0}
     stats["T21 delegating generator"] = _delegating_generators(tree)
+    _fns0 = [n for n in ast.walk(tree) if isinstance(n, (ast.FunctionDef, ast.AsyncFunctionDef))]
+    stats["T26 match statement"] = sum(_match_to_if(fn) for fn in _fns0)
+    stats["T27 assignment expression"] = sum(_walrus(fn) for fn in _fns0)
     stats["T23 partial application"] = _partials(tree)
     fns = [n for n in ast.walk(tree) if isinstance(n, (ast.FunctionDef, ast.AsyncFunctionDef))]
     for fn in fns:
+        stats["T3 unroll"] += _literal_tables(fn)
         stats["T3 unroll"] += _unroll(fn)
         stats["T3 unroll"] += _unroll_search(fn)
     stats["T22 list builder"] = sum(_list_builders(fn) for fn in fns)
